@@ -2,8 +2,9 @@
     Model: model/M_spectra.v on top of the response rows of model/M_sdof.v. Over R (exact arithmetic).
     "All outputs are finite" is meaningless over R and is monitored on the implementation's floats by the check only. *)
 From Coq Require Import ZArith Reals List Lia Lra Bool.
+From Coquelicot Require Import Coquelicot.
 From EQ Require Import lib.Num lib.NpList lib.Quad model.M_sdof gen.Gen_sdof_coeffs model.M_sdof_R model.M_spectra
-  proofs.P_C01 proofs.P_C02 proofs.P_C03.
+  proofs.P_C01 proofs.P_C01_glue proofs.P_C02 proofs.P_C03 proofs.P_C03_energy.
 Import ListNotations.
 Local Open Scope R_scope.
 
@@ -108,10 +109,55 @@ Proof. intros. split; [reflexivity|]. split; [reflexivity|]. apply P_C03.input_e
 (** REFUTED clause: "the input energy is non-negative at the end of the record" is false for the rectangle-rule sum the
     code computes: for the record [-3; 1], dt = 1/10, xi = 1/20 and the code's w for T = 1/2 the model value is negative
     (the implementation returns -0.0045). This is the known finding of C03; what holds instead is the continuous-time
-    energy balance, which is not the quantity the function returns. *)
+    energy balance below (the C03_continuous_ theorems), which is not the quantity the function returns. *)
 Theorem C03_input_energy_nonneg_refuted : exists xi w dt (rec : list R), 0 < w /\ 0 <= xi < 1 /\ 0 < dt /\
   input_energy dt rec (map snd (nj_series (nj_coeffs xi w dt) rec)) < 0.
 Proof. exact P_C03.input_energy_negative_witness. Qed.
+
+(** * What holds instead: the continuous-time energy balance (Coquelicot derivatives and Riemann integrals)
+    [energy w u v t] = 1/2 v(t)^2 + 1/2 w^2 u(t)^2  (per unit mass). *)
+
+(** power balance of the closed form on one step with the linear load g0 + s t:  dE/dt = g v - 2 xi w v^2 *)
+Theorem C03_continuous_power_balance : forall xi w, 0 < w -> 0 <= xi -> xi < 1 -> forall u0 v0 g0 s t,
+  is_derive (energy w (usol xi w u0 v0 g0 s) (vsol xi w u0 v0 g0 s)) t
+    ((g0 + s * t) * vsol xi w u0 v0 g0 s t - 2 * xi * w * (vsol xi w u0 v0 g0 s t * vsol xi w u0 v0 g0 s t)).
+Proof. exact P_C03_energy.closed_power. Qed.
+
+(** one step, any initial state: input energy = E(T) - E(0) + dissipated energy, hence >= -E(0) *)
+Theorem C03_continuous_energy_balance_one_step : forall xi w, 0 < w -> 0 <= xi -> xi < 1 -> forall u0 v0 g0 s T, 0 <= T ->
+  RInt (fun t => (g0 + s * t) * vsol xi w u0 v0 g0 s t) 0 T
+  = energy w (usol xi w u0 v0 g0 s) (vsol xi w u0 v0 g0 s) T - (1 / 2 * (v0 * v0) + 1 / 2 * (w ^ 2 * (u0 * u0)))
+    + 2 * xi * w * RInt (fun t => vsol xi w u0 v0 g0 s t * vsol xi w u0 v0 g0 s t) 0 T
+  /\ - (1 / 2 * (v0 * v0) + 1 / 2 * (w ^ 2 * (u0 * u0))) <= RInt (fun t => (g0 + s * t) * vsol xi w u0 v0 g0 s t) 0 T.
+Proof.
+  intros xi w Hw H0 H1 u0 v0 g0 s T HT.
+  split; [now apply P_C03_energy.closed_balance | now apply P_C03_energy.closed_input_energy_lower].
+Qed.
+
+(** one step from the zero state: the input energy int_0^T g v dt is >= 0 at every time T >= 0 *)
+Theorem C03_continuous_input_energy_nonneg : forall xi w, 0 < w -> 0 <= xi -> xi < 1 -> forall g0 s T, 0 <= T ->
+  0 <= RInt (fun t => (g0 + s * t) * vsol xi w 0 0 g0 s t) 0 T.
+Proof. exact P_C03_energy.closed_input_energy_nonneg. Qed.
+
+(** the whole record: for EVERY exact solution (u, v) of C01 ([solves]; it exists and is unique: C01_solution_exists,
+    C01_solution_unique) and the piecewise-linear record load [pwload], at every time T in [0, (n-1) dt]
+      int_0^T a(t) v(t) dt = 1/2 v(T)^2 + 1/2 w^2 u(T)^2 + 2 xi w int_0^T v^2 dt   >= 0 *)
+Theorem C03_continuous_energy_balance_record : forall xi w dt, 0 < w -> 0 <= xi -> xi < 1 -> 0 < dt ->
+  forall (rec : list R) (u v : R -> R), solves xi w dt rec u v ->
+  forall T, 0 <= T <= INR (length rec - 1) * dt ->
+  RInt (fun t => pwload rec dt t * v t) 0 T = energy w u v T + 2 * xi * w * RInt (fun t => v t * v t) 0 T.
+Proof. intros xi w dt Hw H0 H1 Hdt. exact (P_C03_energy.record_energy_balance xi w dt Hdt). Qed.
+Theorem C03_continuous_input_energy_nonneg_record : forall xi w dt, 0 < w -> 0 <= xi -> xi < 1 -> 0 < dt ->
+  forall (rec : list R) (u v : R -> R), solves xi w dt rec u v ->
+  forall T, 0 <= T <= INR (length rec - 1) * dt -> 0 <= RInt (fun t => pwload rec dt t * v t) 0 T.
+Proof. intros xi w dt Hw H0 H1 Hdt. exact (P_C03_energy.record_input_energy_nonneg xi w dt Hw H0 Hdt). Qed.
+(** not vacuous: the glued solution of C01 is such a (u, v), for every record *)
+Theorem C03_continuous_input_energy_nonneg_glued : forall xi w dt, 0 < w -> 0 <= xi -> xi < 1 -> 0 < dt -> forall (rec : list R),
+  solves xi w dt rec (glued_u xi w dt rec) (glued_v xi w dt rec) /\
+  forall T, 0 <= T <= INR (length rec - 1) * dt -> 0 <= RInt (fun t => pwload rec dt t * glued_v xi w dt rec t) 0 T.
+Proof. exact P_C03_energy.record_input_energy_nonneg_glued. Qed.
+(** NOT proved: any relation between this integral and the rectangle-rule sum the function returns (they differ by a
+    quadrature error that is not sign-definite - that is exactly the refuted clause). *)
 
 Example C03_nonvacuous : absmax [1; -3; 2] = 3 /\ obj_factor 1 4 [2; 5] = 4%Z.
 Proof.
